@@ -9,6 +9,7 @@ Definition pins : list string := ["usim/_basics/resource.py:ResourcesUnavailable
   "usim/_basics/resource.py:BaseResources.__remove_resources__";
   "usim/_basics/resource.py:BaseResources.borrow";
   "usim/_basics/resource.py:BaseResources.claim";
+  "usim/_basics/resource.py:BaseResources.__repr__";
   "usim/_basics/resource.py:BaseResources.__eq__";
   "usim/_basics/resource.py:BaseResources.__ne__";
   "usim/_basics/resource.py:BaseResources.__gt__";
@@ -41,6 +42,7 @@ Definition pins : list string := ["usim/_basics/resource.py:ResourcesUnavailable
   "usim/_basics/_resource_level.py:ResourceLevels.__eq__";
   "usim/_basics/_resource_level.py:ResourceLevels.__ne__";
   "usim/_basics/_resource_level.py:ResourceLevels.__iter__";
+  "usim/_basics/_resource_level.py:ResourceLevels.__repr__";
   "usim/_basics/_resource_level.py:__specialise__";
   "usim/_basics/_resource_level.py:__make_init__";
   "usim/_basics/_resource_level.py:__binary_op__";
@@ -53,6 +55,8 @@ Definition pins : list string := ["usim/_basics/resource.py:ResourcesUnavailable
   "usim/_basics/tracked.py:AsyncComparison.__invert__";
   "usim/_basics/tracked.py:AsyncComparison.__init__";
   "usim/_basics/tracked.py:AsyncComparison.__on_changed__";
+  "usim/_basics/tracked.py:AsyncComparison.__str__";
+  "usim/_basics/tracked.py:AsyncComparison.__repr__";
   "usim/_basics/tracked.py:AsyncComparison.<attrs>";
   "usim/_basics/tracked.py:<module>";
   "usim/_basics/tracked.py:Tracked.<attrs>";
